@@ -18,7 +18,7 @@ func init() {
 	register(&Rule{ID: "P-CHAIN-ELSE", Props: []string{"C04", "C12"}, Floor: 0,
 		Doc: "every if/else-if chain (>= 2 arms) that dispatches on a token type in the parser ends in an else, or every arm leaves the chain",
 		Run: rulePChainElse})
-	register(&Rule{ID: "P-ERRFLOW", Props: []string{"C04", "C08", "C16", "C03"}, Floor: 113,
+	register(&Rule{ID: "P-ERRFLOW", Props: []string{"C04", "C08", "C16", "C03", "C15"}, Floor: 113,
 		Doc: "in every API-reachable function that returns an error, the block of each `if err != nil` ends by returning a non-nil error (or panicking) and contains no success return",
 		Run: rulePErrFlow})
 	register(&Rule{ID: "P-CHARCLASS", Props: []string{"C04", "C16", "C19", "C08"}, Floor: 4,
